@@ -2,15 +2,15 @@ import Netpoll.ShardInv.Defs
 namespace Netpoll.Shard
 
 theorem gmisc_step (s s' : S) (a : Act) (h : GMisc s) (hs : step s a = some s') : GMisc s' := by
-  obtain ⟨m1, m2, m3, m4⟩ := h
+  obtain ⟨m1, m3, m4, m5⟩ := h
   cases a with
-  | add n => simp only [step] at hs; cases hs; exact ⟨m1, m2, m3, m4⟩
+  | add n => simp only [step] at hs; cases hs; exact ⟨m1, m3, m4, m5⟩
   | close =>
     simp only [step] at hs; cases hs
-    exact ⟨m1, m2, m3, m4⟩
+    exact ⟨m1, m3, m4, m5⟩
   | die =>
     simp only [step] at hs; cases hs
-    refine ⟨?_, m2, m3, m4⟩
+    refine ⟨?_, m3, m4, m5⟩
     intro h; cases h
   | adder i =>
     simp only [step, stepAdder] at hs
@@ -19,18 +19,17 @@ theorem gmisc_step (s s' : S) (a : Act) (h : GMisc s) (hs : step s a = some s') 
     · rename_i a ha
       split at hs <;> (repeat' split at hs) <;> (try cases hs) <;>
         refine ⟨?_, ?_, ?_, ?_⟩ <;> simp only [setAdder, spawnWorker, active] at * <;>
-        (try (rename_i hsh; have := @shardOf_some_of_lt (s.idx + 1) s.size)) <;> grind
+        grind
   | wk n e =>
     simp only [step, stepWorker] at hs
     split at hs <;> (repeat' split at hs) <;> (try cases hs) <;>
       refine ⟨?_, ?_, ?_, ?_⟩ <;> simp only [endDeal] at * <;> grind
   | tail pc =>
     cases pc <;> simp only [step, stepTail] at hs <;> (repeat' split at hs) <;> (try cases hs) <;>
-      refine ⟨?_, ?_, ?_, ?_⟩ <;> simp only [spawnWorker, active, closing, closed, Netpoll.Gen.c_mux_active,
-        Netpoll.Gen.c_mux_closing, Netpoll.Gen.c_mux_closed] at * <;> grind
+      refine ⟨?_, ?_, ?_, ?_⟩ <;> simp only [spawnWorker] at * <;> grind
   | closer pc =>
     cases pc <;> simp only [step, stepCloser] at hs <;> (repeat' split at hs) <;> (try cases hs) <;>
-      refine ⟨?_, ?_, ?_, ?_⟩ <;> simp only [active, closing, closed, Netpoll.Gen.c_mux_active,
+      refine ⟨?_, ?_, ?_, ?_⟩ <;> simp only [enterDrained, active, closing, closed, Netpoll.Gen.c_mux_active,
         Netpoll.Gen.c_mux_closing, Netpoll.Gen.c_mux_closed] at * <;> grind
 
 theorem gmisc_init (n : Nat) : GMisc (init n) := by
